@@ -15,6 +15,7 @@ import traceback
 from fractions import Fraction
 
 VERIF = os.path.dirname(os.path.dirname(os.path.abspath(__file__)))
+OUT = os.environ.get("PV_OUT", VERIF)  # evidence/ and replays/ go here (self-test redirects them)
 EXIT_OK, EXIT_VIOLATION, EXIT_INCONCLUSIVE = 0, 1, 2
 
 
@@ -765,8 +766,8 @@ def run_check(prop, tier, seed=None):
         "wall_s": round(wall, 2),
         "violations": len(violations),
     }
-    os.makedirs(os.path.join(VERIF, "evidence"), exist_ok=True)
-    with open(os.path.join(VERIF, "evidence", f"{prop}.json"), "w") as f:
+    os.makedirs(os.path.join(OUT, "evidence"), exist_ok=True)
+    with open(os.path.join(OUT, "evidence", f"{prop}.json"), "w") as f:
         json.dump(evidence, f, indent=1, default=str)
 
     for k, v in known_hits.items():
@@ -805,7 +806,7 @@ def _record_violation(prop, sig, job, witness, rr, findings, violations, known_h
     digest = hashlib.sha1(json.dumps([sig, job, witness.get("consts")], sort_keys=True, default=str).encode()).hexdigest()[:12]
     if any(s == sig for s, _ in violations) and len(violations) > 20:
         return
-    path = os.path.join(VERIF, "replays", f"{prop}-{digest}.json")
+    path = os.path.join(OUT, "replays", f"{prop}-{digest}.json")
     os.makedirs(os.path.dirname(path), exist_ok=True)
     with open(path, "w") as fh:
         json.dump({"prop": prop, "job": job, "witness": {"consts": witness.get("consts")}, "signature": sig, "real_run": {k: rr.get(k) for k in ("cls", "obligations", "res", "culprit")}}, fh, indent=1, default=str)
